@@ -104,6 +104,47 @@ where
         }
     }
 
+    /// Interpolates at every pending `t_eval` point of the accepted step `[xold, x]` that is
+    /// not beyond `xlim` (by more than `lim_tol`), in the direction of integration.
+    fn sample_t_eval(
+        &mut self,
+        xold: Float,
+        x: Float,
+        xlim: Float,
+        lim_tol: Float,
+        n: usize,
+        interpolant: &StepInterpolant<'_>,
+    ) {
+        let Some(t_eval) = self.t_eval.as_ref() else {
+            return;
+        };
+        let mut i = self.next_idx;
+        if x > xold {
+            // Forward integration: t_eval[i] in (xold, xlim]
+            while i < t_eval.len() && t_eval[i] <= xlim + lim_tol {
+                if t_eval[i] >= xold - self.tol {
+                    let mut yi = vec![0.0; n];
+                    interpolant.interpolate(t_eval[i], &mut yi);
+                    self.t.push(t_eval[i]);
+                    self.y.push(yi);
+                }
+                i += 1;
+            }
+        } else {
+            // Backward integration: t_eval is sorted decreasing, t_eval[i] in [xlim, xold)
+            while i < t_eval.len() && t_eval[i] >= xlim - lim_tol {
+                if t_eval[i] <= xold + self.tol {
+                    let mut yi = vec![0.0; n];
+                    interpolant.interpolate(t_eval[i], &mut yi);
+                    self.t.push(t_eval[i]);
+                    self.y.push(yi);
+                }
+                i += 1;
+            }
+        }
+        self.next_idx = i;
+    }
+
     /// Consumes the handler and returns all collected data.
     pub fn into_payload(
         self,
@@ -314,6 +355,11 @@ impl<'a, F: IVP> SolOut for DefaultSolOut<'a, F> {
                     // Check for terminal event
                     if let Some(limit) = config.terminal_count {
                         if self.event_hits[i] >= limit {
+                            // Requested output times of this step that are not beyond the
+                            // event are still reported
+                            if let Some(interp) = interpolant {
+                                self.sample_t_eval(xold, *x, event_t, 0.0, y.len(), interp);
+                            }
                             // Add the terminal event point to the output
                             self.t.push(event_t);
                             self.y.push(event_y);
@@ -344,46 +390,21 @@ impl<'a, F: IVP> SolOut for DefaultSolOut<'a, F> {
         if let Some(t_eval) = self.t_eval.as_ref() {
             // Mode 1: User-specified output times
             // Interpolate solution at each requested time within the current step interval.
-            
-            let mut i = self.next_idx;
-            
+
             if (xold - *x).abs() <= self.tol {
                 // Initial callback (xold == x): output at matching t_eval points
+                let mut i = self.next_idx;
                 while i < t_eval.len() && (t_eval[i] - *x).abs() <= self.tol {
                     self.t.push(t_eval[i]);
                     self.y.push(y.to_vec());
                     i += 1;
                 }
+                self.next_idx = i;
             } else {
                 // Regular accepted step: interpolate at all t_eval[i] within [xold, x] or [x, xold]
-                // Handle both forward (x > xold) and backward (x < xold) integration
-                let forward = *x > xold;
-                
-                if forward {
-                    // Forward integration: t_eval[i] in (xold, x]
-                    while i < t_eval.len() && t_eval[i] <= *x + self.tol {
-                        if t_eval[i] >= xold - self.tol {
-                            let mut yi = vec![0.0; y.len()];
-                            interpolant.unwrap().interpolate(t_eval[i], &mut yi);
-                            self.t.push(t_eval[i]);
-                            self.y.push(yi);
-                        }
-                        i += 1;
-                    }
-                } else {
-                    // Backward integration: t_eval is sorted decreasing, t_eval[i] in [x, xold)
-                    while i < t_eval.len() && t_eval[i] >= *x - self.tol {
-                        if t_eval[i] <= xold + self.tol {
-                            let mut yi = vec![0.0; y.len()];
-                            interpolant.unwrap().interpolate(t_eval[i], &mut yi);
-                            self.t.push(t_eval[i]);
-                            self.y.push(yi);
-                        }
-                        i += 1;
-                    }
-                }
+                let tol = self.tol;
+                self.sample_t_eval(xold, *x, *x, tol, y.len(), interpolant.unwrap());
             }
-            self.next_idx = i;
         } else {
             // Mode 2: Solver-selected output times
             // Record accepted step endpoints. If first_step is set, enforce that the
